@@ -37,6 +37,7 @@ import (
 	"sort"
 	"strings"
 	"testing"
+	"time"
 
 	"github.com/go-logr/logr"
 
@@ -48,6 +49,10 @@ import (
 const (
 	c16APIConnect    = 0
 	c16APIIndication = 1
+	// c16CancelGrace: how long a request cancelled during the backend's
+	// configuration phase is given to return before the backend moves on; both
+	// continuations are judged by the same rules (never a verdict by itself).
+	c16CancelGrace = 200 * time.Millisecond
 )
 
 type c16Backend struct {
@@ -711,6 +716,31 @@ func (x *c16Exec) predict(target string, sc c15Script, canceledAt string) string
 	return "success"
 }
 
+// checkAttemptClosed: once a request has returned unsuccessfully, the backend
+// connection(s) of its own attempt get closed by the proxy, whatever stage the
+// backend is in and independently of any later request (closing may trail the
+// request's return; counted at the fake backends).
+func (x *c16Exec) checkAttemptClosed(q *c16Req) {
+	if q.status == "success" {
+		return // judged as a wrong status by the caller
+	}
+	r := x.rig
+	var open *c15Session
+	ok := r.wait(c15Watchdog, func() bool {
+		open = nil
+		for _, d := range r.dials {
+			if d.ReqID == q.id && d.Sess != nil && d.Sess.openLocked() {
+				open = d.Sess
+			}
+		}
+		return open == nil
+	})
+	if !ok {
+		x.fail("failure:attempt-connection-left-open", "request %s to %s%s returned unsuccessfully (%s %s) but the backend connection %s of its attempt stays open (backend phase %d, parked at %q): the abandoned attempt stays live next to whatever the player does next; %s",
+			q.id, q.target, q.via(), q.status, q.errText, open.name, open.phase, open.holding, x.describe())
+	}
+}
+
 // judge checks the result of a request that was allowed to start an attempt.
 func (x *c16Exec) judge(site string, q *c16Req, pred string, before c16Snap) {
 	switch pred {
@@ -751,6 +781,7 @@ func (x *c16Exec) judge(site string, q *c16Req, pred string, before c16Snap) {
 		}
 		x.curModel = q.dest
 	case "fail-pre":
+		x.checkAttemptClosed(q)
 		if q.status == "success" || q.status == "already" || q.status == "inprogress" {
 			x.fail("status:"+site, "request %s to failing %s%s: got %q; %s", q.id, q.target, q.via(), q.status, x.describe())
 		}
@@ -766,6 +797,7 @@ func (x *c16Exec) judge(site string, q *c16Req, pred string, before c16Snap) {
 			x.curModel = "?"
 		}
 	case "fail-post":
+		x.checkAttemptClosed(q)
 		if q.status == "success" || q.status == "already" || q.status == "inprogress" {
 			x.fail("status:"+site, "request %s to failing %s%s: got %q; %s", q.id, q.target, q.via(), q.status, x.describe())
 		}
@@ -830,11 +862,37 @@ func (x *c16Exec) stepOverlap(st c16Step) {
 		x.checkNoSideEffects("in-progress", mid, q, false)
 	}
 	canceledAt := ""
-	if st.Finish == "cancel" && sc.HoldAt != c15StConfig {
+	switch {
+	case st.Finish == "cancel" && sc.HoldAt == c15StConfig:
+		// The caller's context ends while the backend sits in the configuration
+		// phase. Whether the request ends right away is the proxy's choice (only
+		// its login and transition stages watch the context): the grace period
+		// selects the branch, it decides no verdict. If the request returns, the
+		// backend stays as it is (parked in configuration) and the abandoned
+		// attempt's connection has to be closed by the proxy; if not, the backend
+		// drops the connection and the request fails then.
+		x.label("cancel-at-config")
+		q1.cancel()
+		if x.rig.wait(c16CancelGrace, func() bool { return q1.returned }) {
+			x.label("cancel-at-config-request-returned")
+			canceledAt = sc.HoldAt
+		} else {
+			x.label("cancel-at-config-request-pending")
+			x.rig.mu.Lock()
+			for _, d := range x.rig.dials {
+				if d.ReqID == q1.id && d.Sess != nil {
+					d.Sess.script.FaultAt, d.Sess.script.Fault = c15StConfig, "close"
+				}
+			}
+			x.rig.mu.Unlock()
+			sc.FaultAt, sc.Fault = c15StConfig, "close"
+			x.release(q1)
+		}
+	case st.Finish == "cancel":
 		canceledAt = sc.HoldAt
 		x.label("cancel-at-" + sc.HoldAt)
 		q1.cancel()
-	} else {
+	default:
 		x.release(q1)
 	}
 	x.waitReq(q1, false)
